@@ -275,8 +275,29 @@ class SR:
     def __float__(s):
         raise SymUnsupported('float() of a symbolic real')
 
+    def _to_int(s, t_real):
+        """integer part of a symbolic real: concretised when the solver proves it unique under the linear box
+        assumptions, otherwise *forked* on its value (each path gets k and the linear fact k <= t < k+1), so that no
+        ToInt term ever meets nonlinear arithmetic."""
+        e = Engine.cur
+        ti = z3.ToInt(t_real)
+        k = e.unique_int(ti)
+        if k is not None:
+            return k
+        for _ in range(8):
+            r, m = e.sat()
+            if r != z3.sat:
+                break
+            k = m.eval(ti, model_completion=True).as_long()
+            c = z3.And(t_real >= k, t_real < k + 1)
+            if e.decide(c):
+                e.lin.append(c)
+                return k
+            e.lin.append(z3.Not(c))
+        return None
+
     def __floor__(s):
-        e = Engine.cur; k = e.unique_int(z3.ToInt(s.t))
+        k = s._to_int(s.t)
         return k if k is not None else SI(z3.ToInt(s.t))
 
     def floor(s):
@@ -284,9 +305,9 @@ class SR:
         return float(r) if isinstance(r, int) else SR(z3.ToReal(r.t))
 
     def rint(s):
-        e = Engine.cur; t = z3.ToInt(s.t + z3.RealVal('1/2'))   # ties: half-up (stated assumption)
-        k = e.unique_int(t)
-        return float(k) if k is not None else SR(z3.ToReal(t))
+        t = s.t + z3.RealVal('1/2')   # ties: half-up (stated assumption)
+        k = s._to_int(t)
+        return float(k) if k is not None else SR(z3.ToReal(z3.ToInt(t)))
 
     def sqrt(s):
         return SSqrt(s)
@@ -525,6 +546,11 @@ class SI:
     def __divmod__(s, o):
         q = s // o
         return q, s - q * o
+
+    def __rdivmod__(s, o):
+        o = o if isinstance(o, SI) else SI(o)
+        q = o // s
+        return q, o - q * s
 
     def __truediv__(s, o):
         return SR(z3.ToReal(s.t)) / o
